@@ -31,7 +31,7 @@ fn digest(snaps: &[Snapshot]) -> String {
 
 impl Prop for C19 {
   fn id(&self) -> &'static str { "C19" }
-  fn rule(&self) -> String { "programs from the typed generator (construct sweep + composites of 1-14 statements; with and without assignment / op-assignment statements; operators, ranges, indexing, concatenation, conversions, sets, tables, records, stdlib calls, comprehensions) x step counts {1,2,3,7}: (a) two independent interpreters in one process, (b) one step(0,n) against n single steps, (c) the digests of all snapshots must agree across separate worker processes (each has different hash seeds), (d) for assignment-free programs every snapshot equals the one after the first evaluation. Non-trivial = the program interpreted and its plan was stepped".into() }
+  fn rule(&self) -> String { "programs from the typed generator (construct sweep + composites of 1-14 statements; with and without assignment / op-assignment statements; operators, ranges, indexing, concatenation, conversions, sets, tables, records, stdlib calls, comprehensions) x step counts {1,2,3,7}: (a) two independent interpreters in one process, (b) one step(0,n) against n single steps, (c) the digests of all snapshots must agree across separate worker processes (each has different hash seeds), (d) for assignment-free programs every snapshot equals the one after the first evaluation, and (e) the same program compiled, loaded and run in a fresh interpreter keeps every variable when its loaded plan is stepped twice. Non-trivial = the program interpreted and its plan was stepped".into() }
   fn assumptions(&self) -> Vec<String> { vec!["snapshots are canonical deep copies of Interpreter::symbols() without the built-in ans".into()] }
   fn floor(&self, tier: Tier) -> usize { if tier == Tier::Quick { 500 } else { 5000 } }
   fn replicas(&self, tier: Tier) -> usize { if tier == Tier::Quick { 3 } else { 8 } }
@@ -88,7 +88,50 @@ impl Prop for C19 {
       if i == 0 { snaps.push(a.0.clone()); }
       snaps.push(a.1);
     }
-    let mut o = Outcome::held();
+    // the same program as bytecode in a fresh interpreter: re-evaluating the loaded plan must leave every variable as the run
+    // left it (assignment-free programs only; programs whose bytecode does not load or run are skipped)
+    let mut bc_tag = "bytecode-twin:skipped";
+    if !mutates {
+      if let Ok(Ok(tree)) = guarded(|| mech_syntax::parser::parse(src)) {
+        let mut a = mech_interpreter::Interpreter::new(0);
+        if let Ok(Ok(_)) = guarded(|| a.interpret(&tree)) {
+          if let Ok(Ok(bytes)) = guarded(|| a.compile()) {
+            if let Ok(Ok(prog)) = guarded(|| mech_core::ParsedProgram::from_bytes(&bytes)) {
+              // running and stepping a loaded plan can crash the process for constructs outside the class C06 promises to
+              // run; a crash or an error is recorded as an observation, only a silently changed variable is a verdict. The
+              // twin runs in a forked child: exit 0 = variables unchanged by step(0,2), 1 = changed, 2 = run/step error,
+              // 3 = panic, 4 = bytecode does not run
+              let pid = unsafe { libc::fork() };
+              if pid == 0 {
+                let mut b = Sess::new();
+                let code = match guarded(|| b.intrp.run_program(&prog)) {
+                  Ok(Ok(_)) => match guarded(|| b.snapshot()) {
+                    Ok(before) => match guarded(|| b.intrp.step(0, 2)) { Ok(Ok(_)) => match guarded(|| b.snapshot()) { Ok(after) => if after == before { 0 } else { 1 }, Err(_) => 3 }, Ok(Err(_)) => 2, Err(_) => 3 },
+                    Err(_) => 3,
+                  },
+                  Ok(Err(_)) => 4,
+                  Err(_) => 3,
+                };
+                unsafe { libc::_exit(code) };
+              } else if pid > 0 {
+                let mut status: libc::c_int = 0;
+                unsafe { libc::waitpid(pid, &mut status, 0); }
+                if libc::WIFEXITED(status) {
+                  match libc::WEXITSTATUS(status) {
+                    0 => bc_tag = "bytecode-twin:same",
+                    1 => return Outcome::violated("step-changed-loaded-bytecode", format!("program\n{}\nrun from its bytecode in a fresh interpreter, then step(0,2): a variable changed although the program has no assignment", src)),
+                    2 => bc_tag = "bytecode-twin:step-error",
+                    4 => bc_tag = "bytecode-twin:does-not-run",
+                    _ => bc_tag = "bytecode-twin:panic",
+                  }
+                } else { bc_tag = "bytecode-twin:crash"; }
+              }
+            }
+          }
+        }
+      }
+    }
+    let mut o = Outcome::held().tag(bc_tag);
     o.digest = Some(digest(&snaps));
     o
   }
